@@ -66,7 +66,7 @@ F_NULL = "C05-null-non-optional"
 F_LIT = "C05-literal-int-accepts-bool"
 F_DICT = "C05-dict-item-dotted-mapping"
 F_CLASH = "C05-clash-named-argument"
-CLASH_HINTS = ("enum", "dictint", "any", "tupint", "tupvar", "float", "ufloat", "listfloat", "yesno")   # value converted by _check_value_key, or a dict
+CLASH_HINTS = ("enum", "dictint", "dictstr", "any", "tupint", "tupvar", "float", "ufloat", "listfloat", "yesno")   # value converted by _check_value_key, or a dict
 
 warnings.simplefilter("ignore")
 
@@ -81,19 +81,23 @@ class Color(enum.Enum):
 LOOKALIKE = ["1", "true", "null", "1e3", "0123", "[1]", "{a: 1}", " padded ", "a: b", "#x", "", "-", "-x", "--y", "a=b", "'q'", "~",
              "!!int 3", "*a", "&a", "%x", "@x", "`x", "/tmp", "x:", "{}", "[]", "yes", "True", ".5", "1_000", "0x10", "2020-01-01", "1:30",
              "a,b", "null ", "0", "-0", "+1", "1.0", "no", "on", "None", "plain", "two words", "a.b", "a__b", "é", '"dq"', "a\\b", "a\nb", "\t",
-             "${x}", "-5", "0o17", ".inf", ".nan", "<<", "=", "? a", "- a", "|", ">", "a #b", "{\"a\": 1}", "[1, 2]"]
+             "${x}", "-5", "0o17", ".inf", ".nan", "<<", "=", "? a", "- a", "|", ">", "a #b", "{\"a\": 1}", "[1, 2]",
+             "YQ==", "a=b=c", "k=", "=v", "http://h/p?q=1&r=2", "x==y", "QUJD=="]
+EQ_STRINGS = ["a=b", "YQ==", "a=b=c", "k=", "=v", "http://h/p?q=1&r=2", "x==y", "QUJD==", "plain", "1", "true", "two words", ""]
+ITEM_NAMES = ["filter", "token", "url", "a", "k_2", "B"]
+CHOICES = ["fast", "slow", "1"]
 LIT_MEMBERS = ["a", "b", "1", "true", "null", " x ", "[1]"]
 NAMES = ["a", "b", "c", "x", "y", "lr", "n_1", "opt", "items", "keys", "Ab", "v2", "w", "name"]
 GROUP_PATHS = ["g", "h", "g.s", "model"]
 HINTS = ["int", "int", "bool", "str", "str", "optint", "listint", "dictint", "lit", "enum", "posint", "liststr", "any", "litint", "tupint", "tupvar",
-         "float", "ufloat", "listfloat", "yesno"]
+         "float", "ufloat", "listfloat", "yesno", "dictstr", "choice"]
 # a float setting is a JSON number token in a given SPELLING {"$f": "1e5"} (json.dumps never writes 1e5 / 2E3 / 1E-3, hand-written documents do);
 # a yes/no setting is a boolean with the WORD used where a channel carries text {"$b": "YES", "neg": false}
 FLOAT_SPELLINGS = ["0.5", "1.5", "-2.25", "100000.0", "1e+16", "1e-05", "3", "-7", "0.0",                # what json.dumps / repr write (and ints)
                    "1e5", "2E3", "1E-3", "-3e10", "1e0", "12e2", "5E1", "1.5e3", "1.0E+2", "5.7e-8", "0.25E2", "-1.5E-2", "1e-3", "2e+3", "0e0"]
 YES_WORDS = ["true", "yes", "True", "Yes", "TRUE", "YES", "tRuE"]
 NO_WORDS = ["false", "no", "False", "No", "FALSE", "NO", "fAlSe"]
-RAW_HINTS = {"str", "lit", "enum"}           # option / variable text is the value
+RAW_HINTS = {"str", "lit", "enum", "choice"}           # option / variable text is the value
 INT_POOL = [0, 1, -1, 7, -5, 123, 10, 2**31, -(2**63), 10**20, 99]
 DICT_KEYS = ["a", "b", "b c", "1", "true", "null", "k_2", "A"]
 
@@ -106,13 +110,15 @@ def hint_type(h):
     return {"int": int, "bool": bool, "str": str, "optint": Optional[int], "listint": List[int], "dictint": Dict[str, int],
             "lit": Literal[tuple(LIT_MEMBERS)], "enum": Color, "posint": PositiveInt, "liststr": List[str], "any": Any,
             "litint": Literal[1, 2], "tupint": Tuple[int, int], "tupvar": Tuple[int, ...],
-            "float": float, "ufloat": Union[float, str], "listfloat": List[float]}[h]
+            "float": float, "ufloat": Union[float, str], "listfloat": List[float], "dictstr": Dict[str, str],
+            "choice": Union[str, List[str]]}[h]
 
 
 DEFAULTS = {"int": [0, 7], "bool": [False, True], "str": ["x", "dflt"], "optint": [None, 3], "listint": [[], [9]], "dictint": [{}, {"z": 0}],
             "lit": ["a"], "enum": ["red"], "posint": [1, 4], "liststr": [[], ["d"]], "any": [None, 0], "litint": [1],
             "tupint": [[0, 0], [3, -4]], "tupvar": [[], [8]],      # given to add_argument as tuples (normal form)
-            "float": [0.5, 2.0], "ufloat": [1.5], "listfloat": [[], [0.25]], "yesno": [False, True]}
+            "float": [0.5, 2.0], "ufloat": [1.5], "listfloat": [[], [0.25]], "yesno": [False, True],
+            "dictstr": [{}, {}], "choice": ["fast", "slow"]}
 
 
 def gen_default(rng, h):
@@ -151,6 +157,10 @@ def gen_value(rng, h):
         return [{"$f": rng.choice(FLOAT_SPELLINGS)} for _ in range(rng.choice([0, 1, 2, 3]))]
     if h == "yesno":
         return {"$b": rng.choice(YES_WORDS + NO_WORDS), "neg": rng.random() < 0.3}
+    if h == "dictstr":
+        return {k: rng.choice(EQ_STRINGS) for k in rng.sample(ITEM_NAMES, rng.choice([0, 1, 1, 2, 3]))}
+    if h == "choice":
+        return rng.choice(CHOICES)
     if h == "tupint":
         return [rng.choice(INT_POOL), rng.choice(INT_POOL)]
     if h == "tupvar":
@@ -173,6 +183,9 @@ WRONG = {
     "float": ["abc", True, [1], "1e", "e5"],
     "listfloat": [["a"], 5, "abc", [True]],
     "yesno": ["abc", "maybe", 5, "1", [True]],
+    # a single-choice option: a LIST is never a choice, also when it is made of allowed words only
+    "choice": [["fast", "slow"], ["fast"], ["fast", "zzz"], "zzz", 5, ["1", "1"], []],
+    "dictstr": [{"a": 1}, [1], "abc", {"a": None}, {"a": ["x"]}],
     "tupint": [[1], [1, 2, 3], [1, "a"], "abc", 5, [True, 1]],
     "tupvar": [[1, "a"], "abc", 5, {"a": 1}, [None]],
 }
@@ -219,6 +232,8 @@ def gen_spec(rng):
             a = {"key": key, "hint": h, "default": gen_default(rng, h)}
             if h == "yesno":
                 a["yn"] = rng.choice([None, "?", 1])      # ActionYesNo nargs: bare flags only / optional word / word required
+            if h == "choice":
+                a["typed"] = rng.random() < 0.4           # choices= on an untyped option, or with type=Union[str, List[str]]
             args.append(a)
     prefix = rng.choice(["APP", "APP", "my-app", "C05x", "a.b", True, "X_", "app2"])
     spec = {"prefix": prefix, "prog": "c05prog", "group": "g" if use_group else None, "args": args}
@@ -293,7 +308,16 @@ def gen_case(rng):
             settings = [sv for sv in settings if sv[0] != a["key"]]
             settings.append([a["key"] + "." + rng.choice(["a", "k_2"]), rng.choice([1, 5, -2])])
             kind = "dict-item"
-    return {"spec": spec, "settings": settings, "kind": kind}
+    case = {"spec": spec, "settings": settings, "kind": kind}
+    items = []
+    for k, v in settings:
+        a = arg_of(spec, k)
+        if (kind == "valid" and a is not None and a["hint"] in ("dictstr", "dictint") and a.get("nargs") is None and a["default"] == {} and isinstance(v, dict) and v
+                and all(re.match(r"^[A-Za-z_][A-Za-z0-9_]*$", ik) for ik in v) and rng.random() < 0.6):
+            items.append(k)
+    if items:
+        case["argv_items"] = items      # on the command line these dict values are given item by item: --d.item=value
+    return case
 
 
 VALUE_POOL = {
@@ -354,6 +378,9 @@ def add_args(parser, args, group=None):
 
             kw = {} if a.get("yn") is None else {"nargs": a["yn"]}
             target.add_argument("--" + a["key"], action=ActionYesNo, default=d, **kw)
+        elif a["hint"] == "choice":
+            kw = {"type": hint_type("choice")} if a.get("typed") else {}
+            target.add_argument("--" + a["key"], choices=list(CHOICES), default=d, **kw)
         elif a.get("nargs") is not None:
             target.add_argument("--" + a["key"], type=hint_type(a["hint"]), nargs=a["nargs"], default=d)
         else:
@@ -502,6 +529,10 @@ def argv_of(case, eq):
             else:
                 opt, word = (neg, opposite_word(v["$b"])) if v.get("neg") else ("--" + rel, v["$b"])
                 target.extend([opt + "=" + word] if eq else [opt, word])
+        elif a is not None and k in case.get("argv_items", ()) and isinstance(v, dict) and v and not is_f(v) and not is_b(v):
+            # the items of a dict-typed option spelled with dots: --d.item=value / --d.item value (the default of d is {})
+            for ik, iv in v.items():
+                target.extend(["--%s.%s=%s" % (rel, ik, text_of(iv))] if eq else ["--%s.%s" % (rel, ik), text_of(iv)])
         elif a is not None and a.get("nargs") is not None and isinstance(v, list):
             vals = [text_of(e) for e in v]
             # argparse accepts '--k=v' only for exactly one value; several values follow the option as separate arguments
@@ -632,6 +663,11 @@ def skip_reason(ch, case):
             t = text_of(v)
             if t.startswith("-") and not _NEG_NUM.match(t):
                 return "argparse tokenisation of a value starting with '-'"
+    if ch == "argv_sp":
+        for k, v in settings:
+            if k in case.get("argv_items", ()) and isinstance(v, dict):
+                if any(text_of(iv).startswith("-") and not _NEG_NUM.match(text_of(iv)) for iv in v.values()):
+                    return "argparse tokenisation of a value starting with '-'"
     if ch in ("argv_sp", "argv_eq"):
         for k, v in settings:
             a = arg_of(case["spec"], k)
@@ -1026,7 +1062,8 @@ def foreign_keys(spec):
 def outside_model(case):
     """what the Channels model does not have: sub-commands, or a setting for a foreign argument"""
     fk = foreign_keys(case["spec"])
-    return bool(case["spec"].get("sub")) or any(k in fk for k, _ in case["settings"])
+    # (the item-by-item command line spelling of a dict value, --d.item=v, is not a rendering of the model either)
+    return bool(case["spec"].get("sub")) or bool(case.get("argv_items")) or any(k in fk for k, _ in case["settings"])
 
 
 def drop_keys(c, keys, pre=""):
@@ -1331,7 +1368,7 @@ def correspond_channels(ctx: Ctx, cases_outs):
         if not model_ok(case):
             why = "kind " + case["kind"] if case["kind"] not in ("valid", "unknown") else (
                 "clash-named argument, open finding" if clash_args(case) else (
-                    "sub-commands: outside the model" if outside_model(case) else "value outside the grammar"))
+                    "sub-commands / dict items spelled --d.item=v: outside the model" if outside_model(case) else "value outside the grammar"))
             ctx.hist("model_routing", "oracle only (%s)" % why)
             continue
         ctx.hist("model_routing", "model and oracle")
